@@ -24,7 +24,7 @@ TECHNIQUE = "runtime monitoring: projection law across option sets + structural 
 RULE = ("schemas from G-schema x option sets (quick: all-on, all-off, each option alone on, each alone off, 2 random = 18 sets; thorough: all 128) x single-type lookups for every type "
         "x a family of ad-hoc introspection selections. Non-trivial: the schema has a deprecated input value or directive, a OneOf input, a specifiedBy URL or a default; distinct = (schema SDL, option set).")
 ASSUMPTIONS = ["deprecated directives are an experimental feature: the printed client schema is compared with the printed original, both by print_schema"]
-REQUIRED_COUNTERS = ["introspection_from_schema_compared", "introspection_runs", "projection_laws_checked", "model_comparisons", "type_lookups_compared", "client_schemas_round_tripped", "adhoc_selections_checked"]
+REQUIRED_COUNTERS = ["introspection_from_schema_compared", "absent_type_lookups_checked", "introspection_runs", "projection_laws_checked", "model_comparisons", "type_lookups_compared", "client_schemas_round_tripped", "adhoc_selections_checked"]
 
 OPTS = ['descriptions', 'specified_by_url', 'directive_is_repeatable', 'schema_description', 'input_value_deprecation',
         'experimental_directive_deprecation', 'one_of']
@@ -206,6 +206,17 @@ def check_schema(ctx, rng, S, m, how, case):
         if res.errors or res.data['__type'] != t:
             ctx.violation("type-lookup-differs-from-list", {"how": how, "type": t['name'], "errors": [e.message for e in res.errors or []][:2],
                                                             "diff": None if res.errors else first_json_diff(res.data['__type'], t)}, case)
+            return
+    # ... in both directions: a name the list does not have is not found
+    listed = {t['name'] for t in full['__schema']['types']}
+    for nm in ('Int', 'Float', 'String', 'Boolean', 'ID', 'Query', 'Mutation', 'Subscription', '__NoSuchType', 'Ob99', '__Schema2', ''):
+        if nm in listed:
+            continue
+        res = execute_sync(S, ldoc, variable_values={'n': nm})
+        ctx.count("absent_type_lookups_checked")
+        if res.errors or res.data['__type'] is not None:
+            ctx.violation("type-lookup-finds-a-type-the-list-does-not-have", {"how": how, "type": nm, "errors": [e.message for e in res.errors or []][:2],
+                                                                              "found": None if res.errors else (res.data['__type'] or {}).get('kind')}, case)
             return
     # client schema round trip
     ctx.count("client_schemas_round_tripped")
